@@ -551,6 +551,7 @@ impl Shared {
                     Eof,
                     ServerDisconnect,
                     StaleAck(u8),
+                    Garbage(u8),
                     EmitAndAdvance(Emit, u64),
                 }
                 let mut opts: Vec<(E, bool)> = Vec::new();
@@ -600,6 +601,11 @@ impl Shared {
                     if self.cfg.broker.stale_acks && self.broker.connected {
                         for k in 0..4u8 {
                             opts.push((E::StaleAck(k), true));
+                        }
+                    }
+                    if self.cfg.broker.garbage && self.broker.connected {
+                        for k in 0..GARBAGE.len() as u8 {
+                            opts.push((E::Garbage(k), true));
                         }
                     }
                 }
@@ -668,6 +674,13 @@ impl Shared {
                         self.broker.conn_close();
                         true
                     }
+                    E::Garbage(k) => {
+                        let raw = GARBAGE[k as usize];
+                        self.push_raw(c, raw);
+                        self.conns[c].eof_pending = true;
+                        self.broker.conn_close();
+                        true
+                    }
                     E::StaleAck(k) => {
                         let kind = match k {
                             0 => mr::AckKind::PubAck,
@@ -695,6 +708,16 @@ impl Shared {
         }
     }
 }
+
+/// Malformed inbound data, one per class listed in property C08.
+pub const GARBAGE: [&[u8]; 6] = [
+    &[0xF0, 0x00],                               // AUTH: unsupported type
+    &[0x40, 0x81, 0x00, 0x00, 0x01],             // non-canonical remaining length
+    &[0xD1, 0x00],                               // PINGRESP with flags
+    &[0x36, 0x06, 0x00, 0x01, 0x41, 0x00, 0x01, 0x00], // QoS 3
+    &[0x40, 0x01, 0x00],                         // PUBACK truncated
+    &[0xD0, 0x01, 0x00],                         // trailing byte
+];
 
 fn mask_all_but_first(n: usize) -> u64 {
     if n >= 64 { !1u64 } else { ((1u64 << n) - 1) & !1u64 }
@@ -917,7 +940,7 @@ impl<'v> World<'v> {
                 }
                 self.dead_since = None;
                 if draining {
-                    self.drain_connected(&mut conn, id);
+                    self.drain_connected(&mut conn, id, true);
                     true
                 } else {
                     match self.run_connection(&mut conn, id) {
@@ -1152,10 +1175,12 @@ impl<'v> World<'v> {
             if pick == 0 {
                 self.log(|| "program: end".to_string());
                 if self.cfg.drain {
-                    if conn.is_connected() {
-                        self.drain_connected(conn, id);
-                    } else {
-                        self.drain_reconnect_from_conn(conn, id);
+                    let done = conn.is_connected() && self.drain_connected(conn, id, false);
+                    if !done {
+                        // the connection was lost (or its stream is beyond repair): the application
+                        // drops the handle and reconnects; that happens once `conn` is released
+                        self.sh.borrow_mut().close_conn(id);
+                        self.need_reconnect_drain = true;
                     }
                 }
                 return ConnEnd::Finished;
@@ -1302,6 +1327,14 @@ impl<'v> World<'v> {
                     self.sh.borrow_mut().oracle.delivered(m);
                 }
                 self.sh.borrow_mut().oracle.check_no_missed_delivery(op.name());
+                if res == Res::InflightExhausted {
+                    self.sh.borrow_mut().oracle.flag(
+                        "C06",
+                        "M3-exchange-dropped",
+                        op.name(),
+                        "an inbound acknowledgement could not be handled because local in-flight metadata is exhausted".to_string(),
+                    );
+                }
                 if res == Res::Ok && op == OpK::Poll {
                     let p1 = self.sh.borrow().progress;
                     if p1 == progress0 {
@@ -1356,13 +1389,6 @@ impl<'v> World<'v> {
         sh.log(|| "---- benign continuation ----".to_string());
     }
 
-    fn drain_reconnect_from_conn(&mut self, conn: &mut Connection<'_, '_, VirtualIo>, id: usize) {
-        // The handle is dead; the application drops it and reconnects. We cannot reborrow the
-        // session while `conn` is alive, so the caller chain ends here and `run_program` notices.
-        let _ = (conn, id);
-        self.need_reconnect_drain = true;
-    }
-
     fn drain_disconnected(&mut self, session: &mut Session<'_>) {
         self.begin_drain();
         let done = self.connect_and_run(session, true);
@@ -1373,7 +1399,9 @@ impl<'v> World<'v> {
         }
     }
 
-    fn drain_connected(&mut self, conn: &mut Connection<'_, '_, VirtualIo>, id: usize) {
+    /// Poll under a benign environment until quiescent. Returns false (without a verdict) when
+    /// the connection turned out to be lost and a reconnect is still allowed.
+    fn drain_connected(&mut self, conn: &mut Connection<'_, '_, VirtualIo>, id: usize, last_chance: bool) -> bool {
         if !self.sh.borrow().draining {
             self.begin_drain();
         }
@@ -1431,6 +1459,13 @@ impl<'v> World<'v> {
             self.sample_status(&q, "after the benign continuation");
         }
         let quiescent = self.quiescent(conn);
+        if !quiescent && !last_chance {
+            let sh = self.sh.borrow();
+            let lost = last.fatal() || sh.oracle.conns[id].torn || sh.broker.conn_closed || sh.conns[id].closed;
+            if lost {
+                return false;
+            }
+        }
         let mut sh = self.sh.borrow_mut();
         if !quiescent {
             let epoch = sh.oracle.epoch;
@@ -1452,7 +1487,7 @@ impl<'v> World<'v> {
                 format!("poll-fails-{:?}", last)
             } else if !kinds.is_empty() {
                 format!("stuck-{}", kinds.into_iter().collect::<Vec<_>>().join("+"))
-            } else if !sh.oracle.owed_acks.is_empty() || !sh.broker.b2c.is_empty() {
+            } else if !sh.oracle.owed_on(id).is_empty() || !sh.broker.b2c.is_empty() {
                 "owed-acks".to_string()
             } else {
                 "not-quiescent".to_string()
@@ -1462,23 +1497,67 @@ impl<'v> World<'v> {
                 polls,
                 last,
                 stuck,
-                sh.oracle.owed_acks,
+                sh.oracle.owed_on(id),
                 sh.broker.b2c.len(),
                 conn.session().is_publish_quiescent()
             );
             sh.oracle.flag("C16", "P1-not-quiescent", &ctx, d.clone());
             sh.oracle.flag("C12", "R3-not-usable", &ctx, d);
         }
-        // "exactly once by the end of the drain" for everything that had to be replayed here
+        // per-property verdicts on what the benign continuation left behind
+        let epoch = sh.oracle.epoch;
+        let stuck: Vec<(u8, ReqKind, bool)> = sh
+            .oracle
+            .reqs
+            .iter()
+            .filter(|r| r.live(epoch))
+            .map(|r| (r.seq, r.kind, r.pubrec_ok.is_some()))
+            .collect();
+        for (seq, kind, rec) in stuck {
+            let (prop, rule) = match kind {
+                ReqKind::Pub1 => ("C02", "Q1-never-acknowledged"),
+                ReqKind::Pub2 => ("C03", if rec { "X3-never-completed" } else { "X3-never-received" }),
+                _ => ("C05", "S4-never-acknowledged"),
+            };
+            sh.oracle.flag(
+                prop,
+                rule,
+                kind.name(),
+                format!(
+                    "request {} is still unacknowledged after the benign continuation ({} polls, last result {:?})",
+                    seq, polls, last
+                ),
+            );
+        }
+        if !sh.oracle.owed_on(id).is_empty() && !last.fatal() {
+            let kinds: std::collections::BTreeSet<String> =
+                sh.oracle.owed_on(id).iter().map(|o| format!("{:?}", o.kind)).collect();
+            let d = format!("acknowledgements still owed to the broker after the benign continuation: {:?}", sh.oracle.owed_on(id));
+            sh.oracle.flag("C04", "I2-ack-missing", &kinds.into_iter().collect::<Vec<_>>().join("+"), d);
+        }
+        // "exactly once by the end" for everything that had to be replayed on this connection
         let missing = sh.oracle.conns[id].must_replay.clone();
-        if !missing.is_empty() && quiescent {
+        for (seq, as_rel) in missing {
+            let kind = sh.oracle.reqs[seq as usize].kind;
+            let (prop, rule) = match kind {
+                ReqKind::Pub1 => ("C02", "Q1-not-replayed"),
+                ReqKind::Pub2 => ("C03", if as_rel { "X3-pubrel-not-replayed" } else { "X3-publish-not-replayed" }),
+                _ => ("C05", "S4-not-replayed"),
+            };
+            sh.oracle.flag(
+                prop,
+                rule,
+                kind.name(),
+                format!("request {} was not retransmitted on the resumed connection {} by the end of the benign continuation", seq, id),
+            );
             sh.oracle.flag(
                 "C05",
                 "S4-not-replayed",
-                "resume",
-                format!("requests {:?} were never retransmitted on the resumed connection {}", missing, id),
+                kind.name(),
+                format!("request {} was not retransmitted on the resumed connection {} by the end of the benign continuation", seq, id),
             );
         }
+        true
     }
 
     fn quiescent(&self, conn: &Connection<'_, '_, VirtualIo>) -> bool {
@@ -1491,7 +1570,7 @@ impl<'v> World<'v> {
             .all(|h| conn.is_complete(&h.op) || conn.is_invalidated(&h.op));
         !live
             && handles_ok
-            && sh.oracle.owed_acks.is_empty()
+            && sh.oracle.owed_on(sh.conns.len() - 1).is_empty()
             && sh.broker.quiet()
             && conn.session().is_publish_quiescent()
             && conn.is_connected()
